@@ -154,7 +154,9 @@ def gen_growshrink_cases(seed, n, types, orders=(4, 8)):
         U = rng.randint(order * order * 2, min(600, order * order * order + order))
         ks = list(range(U))
         rng.shuffle(ks) if rng.random() < 0.6 else None
-        ops = ["I %d.%d %d" % (c, rng.randrange(ntags), c % 1000) for c in ks]
+        upd = rng.random() < 0.5
+        ops = [("U %d.%d %d" % (c, rng.randrange(ntags), 1 + c % 7)) if (upd and rng.random() < 0.4) else
+               ("I %d.%d %d" % (c, rng.randrange(ntags), c % 1000)) for c in ks]
         style = rng.choice(["random", "right", "left", "ends", "middle_out"])
         dels = list(range(U))
         if style == "random":
@@ -175,6 +177,9 @@ def gen_growshrink_cases(seed, n, types, orders=(4, 8)):
                 ops.append("C %d.0 %d 1" % (rng.randrange(U), rng.choice([-1, 5])))
             if j % 23 == 0 and rng.random() < 0.5:
                 ops.append("I %d.%d %d" % (rng.randrange(U), rng.randrange(ntags), j))
+            if upd and j % 11 == 0:
+                # a new minimum (or a low key) through Update: must lower the first separator at every level
+                ops.append("U %d.%d %d" % (rng.choice([0, 0, 1, rng.randrange(U)]), rng.randrange(ntags), 1 + j % 5))
         ops.append("C 0.0 -1 0")
         cases.append(dict(id="g%d" % i, type=typ, order=order, keys=key_table(rng, typ, U), ops=ops))
     return cases
